@@ -260,6 +260,31 @@ Theorem gain_internal_potential_scale : forall (F : fieldType) (nv nt m p : nat)
 Proof. move=> F nv nt m p N Dt D S bv bt Hinv s s0 Bv Bt P xs. exact: ScalingAlgebra.gain_internal_pot_scale. Qed.
 Print Assumptions gain_internal_potential_scale.
 
+(* derived laws for the other source kinds (same head matrix, other right-hand-side degrees) *)
+Theorem gain_eit_unit_current_scale : forall (F : fieldType) (nv nt m p : nat)
+  (N : 'M[F]_nv) (Dt : 'M[F]_(nv, nt)) (D : 'M[F]_(nt, nv)) (S : 'M[F]_nt) (bv : 'M[F]_(nv, m)) (bt : 'M[F]_(nt, m)),
+  block_mx N Dt D S \in unitmx -> forall s : F, s != 0 -> forall (A : 'M[F]_(p, nv)) (xs : 'M[F]_(nv + nt, m)),
+  block_mx (s *: N) (s ^+ 2 *: Dt) (s ^+ 2 *: D) (s ^+ 3 *: S) *m xs = col_mx bv (s *: bt) ->
+  A *m usubmx xs = s^-1 *: (A *m usubmx (invmx (block_mx N Dt D S) *m col_mx bv bt)).
+Proof. move=> F nv nt m p N Dt D S bv bt Hinv s s0 A xs. exact: ScalingAlgebra.gain_eit_unit_current_scale. Qed.
+Print Assumptions gain_eit_unit_current_scale.
+
+Theorem gain_eit_unit_density_scale : forall (F : fieldType) (nv nt m p : nat)
+  (N : 'M[F]_nv) (Dt : 'M[F]_(nv, nt)) (D : 'M[F]_(nt, nv)) (S : 'M[F]_nt) (bv : 'M[F]_(nv, m)) (bt : 'M[F]_(nt, m)),
+  block_mx N Dt D S \in unitmx -> forall s : F, s != 0 -> forall (A : 'M[F]_(p, nv)) (xs : 'M[F]_(nv + nt, m)),
+  block_mx (s *: N) (s ^+ 2 *: Dt) (s ^+ 2 *: D) (s ^+ 3 *: S) *m xs = col_mx (s ^+ 2 *: bv) (s ^+ 3 *: bt) ->
+  A *m usubmx xs = s *: (A *m usubmx (invmx (block_mx N Dt D S) *m col_mx bv bt)).
+Proof. move=> F nv nt m p N Dt D S bv bt Hinv s s0 A xs. exact: ScalingAlgebra.gain_eit_unit_density_scale. Qed.
+Print Assumptions gain_eit_unit_density_scale.
+
+Theorem gain_surface_source_scale : forall (F : fieldType) (nv nt m p : nat)
+  (N : 'M[F]_nv) (Dt : 'M[F]_(nv, nt)) (D : 'M[F]_(nt, nv)) (S : 'M[F]_nt) (bv : 'M[F]_(nv, m)) (bt : 'M[F]_(nt, m)),
+  block_mx N Dt D S \in unitmx -> forall s : F, s != 0 -> forall (A : 'M[F]_(p, nv)) (xs : 'M[F]_(nv + nt, m)),
+  block_mx (s *: N) (s ^+ 2 *: Dt) (s ^+ 2 *: D) (s ^+ 3 *: S) *m xs = col_mx (s *: bv) (s ^+ 2 *: bt) ->
+  A *m usubmx xs = A *m usubmx (invmx (block_mx N Dt D S) *m col_mx bv bt).
+Proof. move=> F nv nt m p N Dt D S bv bt Hinv s s0 A xs. exact: ScalingAlgebra.gain_surface_source_scale. Qed.
+Print Assumptions gain_surface_source_scale.
+
 (* conductivities*k: N*k, D*1, S/k, bv, bt/k  =>  potentials / k, MEG unchanged *)
 Theorem gain_sigma_scale : forall (F : fieldType) (nv nt m p : nat)
   (N : 'M[F]_nv) (Dt : 'M[F]_(nv, nt)) (D : 'M[F]_(nt, nv)) (S : 'M[F]_nt) (bv : 'M[F]_(nv, m)) (bt : 'M[F]_(nt, m)),
